@@ -57,7 +57,7 @@ func VerifC17_AppendBinary() {
 }
 
 func VerifC17_BinaryRejectLen() {
-	n := int(vconcrete(uint32(vU8("n")) % 13))
+	n := int(vconcrete(uint32(vU8("n")) % 41)) // every length 0..40 except 8 (also the multiples of 8)
 	vassume(n != 8)
 	data := make([]byte, n)
 	for i := range data {
